@@ -85,6 +85,22 @@ void YmFmOPNA::reset()
 
 void YmFmOPNA::writeReg(uint32_t port, uint16_t addr, uint8_t data)
 {
+    if(p->m_queueCount >= static_cast<long>(c_queueSize))
+    {
+        // The queue is full: hand the oldest write over to the chip right now,
+        // otherwise the head laps the tail and pending writes get lost and reordered
+        ymfm::ym2608 *chip_r = reinterpret_cast<ymfm::ym2608*>(m_chip);
+        const Reg &front = p->m_queue[p->m_tailPos++];
+
+        if(p->m_tailPos >= c_queueSize)
+            p->m_tailPos = 0;
+        --p->m_queueCount;
+
+        const uint32_t addr1 = 0 + 2 * ((front.addr >> 8) & 3);
+        chip_r->write(addr1, front.addr & 0xff);
+        chip_r->write(addr1 + 1, front.data);
+    }
+
     p->writeReg(port, addr, data);
 }
 
